@@ -71,6 +71,7 @@ type SpecFile struct {
 	Types     []*TypeSpec
 	Axioms    []*Clause
 	Lemmas    []*Lemma
+	Stable    []string
 }
 
 type Lemma struct {
@@ -657,6 +658,8 @@ func ParseSpecFile(path string, pkg string, requirePrefix bool) (*SpecFile, erro
 				return nil, fail(l.no, "%v", err)
 			}
 			sf.Axioms = append(sf.Axioms, &Clause{Kind: "axiom", Tags: tags, Expr: e, Text: rest, File: path, Line: l.no})
+		case "assume_stable":
+			sf.Stable = append(sf.Stable, strings.Fields(l.text)[1:]...)
 		case "trusted", "pure", "inline", "noframe":
 			if cur == nil {
 				return nil, fail(l.no, "%s outside a contract", word)
